@@ -41,8 +41,6 @@ def gen_value(rng, kind):
         return v, hx(v), v
     if kind == "text":
         lines = [rng.choice([b"first", b"second line", b" indented", b"", b"x:y"]) for _ in range(rng.randrange(0, 4))]
-        while lines and lines[0] == b"":
-            lines.pop(0)          # a first logical line that is empty is the C08 known finding
         while lines and lines[-1] == b"":
             lines.pop()
         v = b"\n".join(lines)
